@@ -97,6 +97,7 @@ TColor == TEnum("Color")
 TP == TStruct("P")   TQ == TStruct("Q")   TS == TStruct("S")
 TE == TStruct("Emp") TN == TStruct("Nest")
 TSs == TStruct("Ss") TSo == TStruct("So")
+TWa == TStruct("Wa")
 
 EnumDefs == [Color |-> <<"Red", "Green", "Blue">>]
 
@@ -111,8 +112,17 @@ StructDefs ==
    Nest |-> << <<"p", TP>>, <<"c", TColor>> >>,
    \* Ss and So each hold one field of S: with P they compose S from three sources
    Ss   |-> << <<"s", TStr>> >>,
-   So   |-> << <<"o", TOpt(TInt)>> >>]
-StructOrder == <<"P", "Q", "S", "Emp", "Nest", "Ss", "So">>      \* order of definition in the document
+   So   |-> << <<"o", TOpt(TInt)>> >>,
+   \* "twins": same field names and the same outer type constructor, different inside.  Wa is
+   \* NOT a superset of / castable to Wb, Wt, Wp: substruct, cast and composition between them
+   \* are type errors (quirk family, C24) -- a check that compares only the outer constructor
+   \* would accept them and the VM would fail on a Some/Ok/struct value
+   Wa   |-> << <<"tag", TOpt(TStr)>>, <<"box", TOpt(TP)>>, <<"inner", TP>>, <<"res", TRes(TInt, TStr)>> >>,
+   Wb   |-> << <<"tag", TOpt(TInt)>>, <<"box", TOpt(TQ)>>, <<"inner", TQ>>, <<"res", TRes(TBool, TStr)>> >>,
+   Wt   |-> << <<"tag", TOpt(TInt)>> >>,
+   Wp   |-> << <<"inner", TQ>> >>,
+   Wr   |-> << <<"res", TRes(TBool, TStr)>> >>]
+StructOrder == <<"P", "Q", "S", "Emp", "Nest", "Ss", "So", "Wa", "Wb", "Wt", "Wp", "Wr">>      \* order of definition in the document
 
 Range(s) == {s[i] : i \in DOMAIN s}
 FieldNames(sn) == {f[1] : f \in Range(StructDefs[sn])}
@@ -634,7 +644,7 @@ BodyOk(body, ctx, frt) == TypeStmts(body, 1, ctx, frt) # <<TErr>> /\ HasReturn(S
 Ctx0 == << <<"x", TInt>>, <<"y", TInt>>, <<"p", TBool>>, <<"q", TBool>>, <<"s", TStr>>,
            <<"i", TId>>, <<"j", TId>>, <<"c", TColor>>, <<"o", TOpt(TInt)>>,
            <<"r", TRes(TInt, TStr)>>, <<"u", TP>>, <<"w", TS>>, <<"n", TN>>, <<"m", TOpt(TP)>>,
-           <<"k", TE>>, <<"g", TQ>>, <<"e", TSs>>, <<"f", TSo>> >>
+           <<"k", TE>>, <<"g", TQ>>, <<"e", TSs>>, <<"f", TSo>>, <<"wa", TWa>> >>
 
 IntDom == <<I(0), I(1), I(-1), MINI, IV(-1, 1), IV(1, -2), MAXI>>
 Dom(t) ==
@@ -654,6 +664,10 @@ Dom(t) ==
     [] t = TQ -> <<VStruct("Q", ("a" :> I(0)) @@ ("b" :> VT)), VStruct("Q", ("a" :> MAXI) @@ ("b" :> VF))>>
     [] t = TSs -> <<VStruct("Ss", "s" :> VStr("ab")), VStruct("Ss", "s" :> VStr(""))>>
     [] t = TSo -> <<VStruct("So", "o" :> VSome(I(-1))), VStruct("So", "o" :> VNone)>>
+    [] t = TWa -> <<VStruct("Wa", ("tag" :> VSome(VStr("a"))) @@ ("box" :> VSome(VP(I(1), TRUE)))
+                                   @@ ("inner" :> VP(I(0), FALSE)) @@ ("res" :> VOk(I(1)))),
+                    VStruct("Wa", ("tag" :> VNone) @@ ("box" :> VNone)
+                                   @@ ("inner" :> VP(MAXI, TRUE)) @@ ("res" :> VErr(VStr(""))))>>
 
 RECURSIVE VarsOf(_)
 VarsOf(n) ==
@@ -854,6 +868,12 @@ Prods(t, ctx, d, frt) ==
         \cup (IF CtxHas(ctx, "g0") /\ t = TInt
               THEN {Call("saturating_add", <<N("dot", "a", <<Var("g0")>>), H(TInt)>>)} ELSE {})
         \cup (IF CtxHas(ctx, "g0") /\ t = TBool THEN {N("not", 0, <<N("dot", "b", <<Var("g0")>>)>>)} ELSE {})
+        \* substruct / cast / composition between the twin structs
+        \cup (IF t[1] = "struct" /\ t[2] \in {"Wb", "Wt", "Wp", "Wr"} /\ CtxHas(ctx, "wa")
+              THEN {N("substruct", t[2], <<Var("wa")>>)}
+                   \cup (IF t[2] = "Wb" THEN {N("cast", "Wb", <<Var("wa")>>),
+                                              N("struct", <<"Wb", <<>>, <<"wa">>>>, <<>>)} ELSE {})
+              ELSE {})
         \cup (CASE t = TP -> {Partial}
                 [] t = TBool -> {N("dot", "b", <<Partial>>), N("eq", 0, <<Partial, H(TP)>>)}
                 [] t = TInt -> {N("dot", "a", <<N("cast", "Q", <<Partial>>)>>)}
@@ -938,7 +958,8 @@ Exprs(d, t, ctx, frt, w) ==
 
 AnyAtoms == IF Effects THEN UNION {LitsOf(t) : t \in AllTypes} \cup {Var(Ctx0[i][1]) : i \in DOMAIN Ctx0}
             ELSE {Lit(I(0)), Lit(MAXI), Lit(VT), Lit(VStr("ab")), Lit(VEnum("Color", "Red")), Lit(VNone),
-                  Var("x"), Var("p"), Var("s"), Var("c"), Var("o"), Var("r"), Var("u"), Var("w"), Var("k"), Var("g")}
+                  Var("x"), Var("p"), Var("s"), Var("c"), Var("o"), Var("r"), Var("u"), Var("w"), Var("k"), Var("g"),
+                  Var("wa")}
 AnyUnary == {<<"some", 0>>, <<"ok", 0>>, <<"err", 0>>, <<"not", 0>>, <<"is", TRUE>>, <<"is", FALSE>>,
              <<"return", 0>>}
             \cup {<<"dot", f>> : f \in {"a", "b", "s", "o", "p", "c"}}
